@@ -181,7 +181,7 @@ class World:
                                       f"parse({text!r}) raised {got[1]}: {got[2]}"))
             else:
                 st["parse_ok"] += 1
-                probs = trees.audit(obj)
+                probs = trees.audit(obj, payload=False)
                 if probs:
                     fs.append(Finding("C10", {"clause": "well-formed", "what": probs[0][:40]},
                                       f"parse({text!r}) returned a malformed tree: {probs[0]}"))
@@ -359,6 +359,7 @@ class ParserSim:
             "eq": rng.random() < 0.7,
             "soup_len": rng.choice([3, 6, 10, 16]),
             "max_len": 80,
+            "long_literals": rng.random() < 0.3,
             # variable alphabet of the session (incl. letters that can spell 'sgn' by juxtaposition)
             "vars": "".join(rng.sample("abcdefghijklmnopqrstuvwxyz", rng.choice([2, 3, 5, 8]))) + rng.choice(["", "x", "sgn", "e"]),
         }
@@ -389,6 +390,7 @@ class ParserSim:
             "edit": rng.choice([0, 1, 3, 5]) if prop == "C12" else rng.choice([0, 1]),
         }
         cfg["fail_bias"] = fail_bias
+        cfg["typist"] = rng.random() < 0.08
         cfg["pool"] = self._pool(rng, gcfg, fail_bias)
         return cfg
 
@@ -400,6 +402,10 @@ class ParserSim:
             if pool and r < 0.35:
                 base = rng.choice(pool)
                 cands = gen.confusables(rng, base)
+                cands.append(base.replace("(", "").replace(")", "").replace("[", "").replace("]", ""))
+                printed = self._printed_form(base)
+                if printed is not None and printed != base:
+                    cands.extend([printed, printed])
                 pool.append(rng.choice(cands) if cands else base + " ")
             elif r < 0.35 + 0.65 * (1 - fail_bias):
                 pool.append(gen.valid_text(rng, gcfg) if rng.random() < 0.8 else rng.choice(gen.CORPUS))
@@ -416,6 +422,16 @@ class ParserSim:
                     k = rng.randint(2, 60)
                     pool.append("(" * k + "x" + ")" * rng.choice([k, k - 1, k + 1]))
         return pool
+
+    @staticmethod
+    def _printed_form(text):
+        """str() of the parsed text: a different text with (usually) the same meaning,
+        which a cache keyed by some canonical form could confuse with the original."""
+        try:
+            from mathy_core.parser import ExpressionParser
+            return str(ExpressionParser().parse(text))
+        except Exception:
+            return None
 
     def _sweep_script(self, rng, gcfg, idx):
         if idx < len(gen.CORPUS):
@@ -456,6 +472,17 @@ class ParserSim:
         w = cfg["w"]
         kinds = [k for k in ("parse", "tokenize", "clear", "edit") for _ in range(w[k])]
         last_text = None
+        if cfg.get("typist"):
+            # a text typed key by key (and sometimes deleted again), each state submitted
+            t = rng.choice(pool)
+            call = rng.choice(["parse", "tokenize", "mixed"])
+            n = 0
+            for i in list(range(1, len(t) + 1)) + (list(range(len(t) - 1, max(0, len(t) - 4), -1)) if rng.random() < 0.3 else []):
+                k = call if call != "mixed" else rng.choice(["parse", "tokenize"])
+                yield [k, t[:i]]
+                n += 1
+                if n >= cfg["n_ops"]:
+                    break
         for _ in range(cfg["n_ops"]):
             k = rng.choice(kinds)
             if k in ("parse", "tokenize"):
